@@ -30,6 +30,8 @@ pub struct GenCfg {
     pub yields: bool,
     pub op_b: bool,
     pub render: bool,
+    #[serde(default)]
+    pub channels: bool,
 }
 
 impl GenCfg {
@@ -54,6 +56,7 @@ impl GenCfg {
             yields: rng.chance(2, 5),
             op_b: rng.chance(1, 2),
             render: rng.chance(1, 3),
+            channels: rng.chance(1, 3),
         }
     }
 }
@@ -70,6 +73,7 @@ pub struct ProgGen<'a> {
     pub budget: i32,
     /// abort handles generated so far in this program (enclosing commands first)
     pub handles_so_far: Vec<u32>,
+    pub next_chan: u32,
 }
 
 impl<'a> ProgGen<'a> {
@@ -85,6 +89,7 @@ impl<'a> ProgGen<'a> {
             cont_depth: 0,
             budget: 40,
             handles_so_far: vec![],
+            next_chan: 0,
         }
     }
 
@@ -258,6 +263,9 @@ impl<'a> ProgGen<'a> {
             if !legacy && self.cfg.abort_cmd && !self.handles_so_far.is_empty() && self.cont_depth == 0 {
                 opts.push((2, 12));
             }
+            if !legacy && deep && self.cfg.channels && self.cfg.spawn {
+                opts.push((3, 13));
+            }
             if !legacy && !slots.is_empty() {
                 opts.push((3, 5));
                 if self.cfg.abort_task && slots.iter().any(|s| s.1) {
@@ -332,6 +340,36 @@ impl<'a> ProgGen<'a> {
                 12 => {
                     let i = self.rng.usize_below(self.handles_so_far.len());
                     Stmt::AbortCmd(self.handles_so_far[i])
+                }
+                13 => {
+                    // a producer or consumer child connected by a channel; the statements that use this
+                    // task's end follow directly
+                    self.next_chan += 1;
+                    let c = self.next_chan + self.next_label * 100;
+                    let child_sends = self.rng.chance(1, 2);
+                    let mut task = self.task(depth - 1, legacy);
+                    let k = self.rng.range(1, 2) as usize;
+                    for _ in 0..k {
+                        let at = self.rng.usize_below(task.stmts.len() + 1);
+                        task.stmts.insert(at, if child_sends { Stmt::ChanSend(c) } else { Stmt::ChanRecv(c) });
+                    }
+                    let slot = if self.rng.chance(1, 2) {
+                        self.next_slot += 1;
+                        slots.push((self.next_slot, false));
+                        Some(self.next_slot)
+                    } else {
+                        None
+                    };
+                    v.push(Stmt::SpawnChan { c, child_sends, task, slot });
+                    let mine = self.rng.range(1, 2) as usize;
+                    for i in 0..mine {
+                        if i > 0 && self.rng.chance(1, 2) {
+                            v.push(Stmt::Emit { tag: self.tag(), cont: None });
+                        }
+                        v.push(if child_sends { Stmt::ChanRecv(c) } else { Stmt::ChanSend(c) });
+                    }
+                    slots.iter_mut().for_each(|s| s.1 = true);
+                    Stmt::Emit { tag: self.tag(), cont: None }
                 }
                 _ => Stmt::HoldToken,
             };
